@@ -481,6 +481,14 @@ def accumulators(ctx, r, site):
                     adv = True
                 else:
                     other = True
+            elif rv["k"] == "binop":
+                # unchecked build: `off = Add(off, n)` without the overflow-check tuple
+                if rv["op"] in ADD_OPS:
+                    adv = True
+                else:
+                    other = True
+            else:
+                other = True
         r.check(init_param and adv and not other, "offset-accumulator", b,
                 "the read offset starts at the start parameter and only advances by the bytes read",
                 "the offset passed to the read at %s is not `start` advanced by the bytes read" % site_where(site), site_where(site))
